@@ -393,6 +393,16 @@ def a_structured(draw, cx, name, with_window=True):
     for i in range(draw(st.integers(0, 2))):
         cls = draw(st.sampled_from(["simple", "storage", "transport", "contract"]))
         inner.append(draw_asset(draw, cin, cls, "%s_x%d" % (name, i + 2)))
+    others = [n for n in cx.nodes if n != ext[0]]
+    if others and draw(st.integers(0, 2)) == 0:
+        # a second external node, reached through its own link; the wrapped assets in any order (the first node that
+        # occurs inside need not be the first external node)
+        ext.append(draw(st.sampled_from(others)))
+        cin.nodes = ext + internal
+        tr2 = a_transport(draw, cin, name + "_x9", ext=False)
+        tr2["nodes"] = [internal[0], ext[1]] if draw(st.booleans()) else [ext[1], internal[0]]
+        inner.append(tr2)
+        inner = [inner[i] for i in draw(st.permutations(list(range(len(inner)))))]
     a = {"type": "structured", "name": name, "nodes": ext, "assets": inner, "wacc": 0.0}
     if with_window:
         a["start"], a["end"] = window(draw, cx, p_none=0.7)
